@@ -30,6 +30,9 @@ def single_codepoints(full):
 # mistake for an ASCII hex digit or for '%': same low byte (U+0141 'A', U+0430 '0', U+0466 'f',
 # U+0125 '%'), same low 16 bits (U+10041), full-width and other Unicode digits/letters
 ALIASES = ["\u0141", "\u0430", "\u0466", "\u0125", "\U00010041", "\uff21", "\uff11", "\u0661", "\u00b2"]
+# KELVIN SIGN (lower() -> 'k'), LONG S (casefolds to 's'), dotted/dotless I, Arabic-Indic / full-width / superscript
+# digits, full-width letters, MICRO SIGN, ordinal indicators (isalpha), ROMAN NUMERAL (isnumeric)
+SCHEME_ALIASES = ["\u212a", "\u017f", "\u0130", "\u0131", "\u0663", "\uff11", "\u00b2", "\uff48", "\u00b5", "\u00aa", "\u2160", "\u00e9"]
 HEXISH = list("0123456789abcdefABCDEF") + ["g", "G", "%", "é", "\ud800", " "] + ALIASES
 CTX_L = ["", "a", "%", "%2"]
 CTX_R = ["", "a", "%", "F"]
@@ -120,7 +123,9 @@ USERINFO = ["", "u@", "u:p@", "u:@", ":p@", "u%40x:p%3Ay@", "us%20er:pa%2Fss@", 
 HOSTS = ["example.com", "h", "127.0.0.1", "[::1]", "[fe80::1%25eth0]", "[2001:db8::ff00:42:8329]",
          "xn--bcher-kva.example", "EXAMPLE.Com", "bücher.example", "a.b.c.", "1.2.3", "[::ffff:1.2.3.4]",
          "h_x", "a-b.c", "", "[v1.x]", "h%41", "0x7f.1", "[0:0:0:0:0:0:0:1]", "XN--bcher-kva.example", "Xn--Bcher-Kva.EXAMPLE",
-         "xn--bcher-kva.XN--p1ai", "BÜCHER.example", "ｅxample.com", "a。b", "[::1%25Eth0]", "[FE80::1]"]
+         "xn--bcher-kva.XN--p1ai", "BÜCHER.example", "ｅxample.com", "a。b", "[::1%25Eth0]", "[FE80::1]",
+         # text that still looks escaped after one pass (a second pass must not touch it)
+         "[fe80::1%2525]", "[fe80::1%252525eth0]", "[::1%25]", "h%2525"]
 PORTS = ["", "", "", ":80", ":443", ":21", ":8080", ":0", ":65535", ":", ":081", ":80", ":8443"]
 BAD_PORTS = [":65536", ":x", ":-1", ": 1", ":+1", ":1_0"]
 PATHS = ["", "/", "/a", "/a/b", "/a/", "//a", "/a//b", "/a%2Fb/c", "/%C3%A9", "/a;p=1", "/a+b", "/a b",
